@@ -1521,20 +1521,22 @@ fn main() -> std::process::ExitCode {
         let grace = Duration::from_millis(grace_ms + 10_000);
         std::thread::spawn(move || {
             let s = stuck::slot(MAIN_SLOT);
-            let mut last = (0u64, 0u32, 0u64);
+            let mut last = ((0u64, 0u32, 0u64), 0u64);
             let mut since = std::time::Instant::now();
             loop {
-                std::thread::sleep(Duration::from_millis(if cfg!(miri) { 0 } else { 100 }));
-                if cfg!(miri) {
-                    std::thread::yield_now();
-                }
-                let cur = s.snapshot();
+                std::thread::sleep(Duration::from_millis(100));
+                let cur = (s.snapshot(), kverif::scn::MAIN_BEAT.load(Ordering::Relaxed));
                 if cur != last {
                     last = cur;
                     since = std::time::Instant::now();
-                } else if (cur.2 == 1 || cur.2 == 2) && since.elapsed() > grace {
-                    println!("{}", J::O(vec![("engine".into(), J::s("scen")), ("main_actor_stuck".into(), J::B(true)), ("in_nonblocking_call".into(), J::B(cur.2 == 1)), ("opid".into(), J::U(cur.1 as u64))]).to_string());
-                    std::process::exit(86);
+                } else if since.elapsed() > grace {
+                    let in_op = cur.0 .2 == 1 || cur.0 .2 == 2;
+                    if in_op || since.elapsed() > grace * 3 {
+                        // inside a channel call that does not return, or wedged between calls for a long time
+                        // (typically on the channel lock, which some thread never released)
+                        println!("{}", J::O(vec![("engine".into(), J::s("scen")), ("main_actor_stuck".into(), J::B(true)), ("in_nonblocking_call".into(), J::B(cur.0 .2 == 1)), ("outside_call".into(), J::B(!in_op)), ("opid".into(), J::U(cur.0 .1 as u64))]).to_string());
+                        std::process::exit(86);
+                    }
                 }
             }
         });
